@@ -18,7 +18,8 @@ sys.path.insert(0, os.path.dirname(os.path.dirname(os.path.abspath(__file__))))
 import vlib
 from gen import headers
 
-BACKENDS = [['-c', '-fnames'], ['-python', '-fnames'], ['-python-native'], ['-c', '-python', '-fnames', '-string']]
+BACKENDS = [['-c', '-fnames'], ['-python', '-fnames'], ['-python-native'], ['-c', '-python', '-fnames', '-string'],
+            ['-c', '-fnames', '-unique-names', '-string'], ['-python', '-fnames', '-unique-names', '-string', '-promiscuous']]
 
 PERTURB = [
     ('baseline', {}, []),
@@ -51,6 +52,8 @@ def main():
         text = lib.render()
         # overload sets whose parameters fall into one sort class (int-like): ties for RemapCompareLess
         text += '\nclass Ov%d {\n__published:\n  void f(int a);\n  void f(short a);\n  void f(unsigned char a);\n  void g(const Ov%d &a);\n  void g(double a);\n  void g(float a);\n};\n' % (i, i)
+        # strings in every role (value, reference, pointer; parameter and result): remaps that are rejected or forced to void
+        text = '#include <string>\n' + text + '\nclass Sx%d {\n__published:\n  std::string *gs();\n  std::string &gr();\n  const std::string &gc() const;\n  std::string gv(const std::string &a, std::string b, const std::string *c);\n  void sv(std::string *out);\n};\n' % i
         d = os.path.join(wd, 'c%d' % i)
         os.makedirs(d)
         open(os.path.join(d, 'h.h'), 'w').write(text)
@@ -66,7 +69,7 @@ def main():
             env['SOURCE_DATE_EPOCH'] = epoch
         pre = prefix if (prefix and have_setarch) else []
         out = {c: os.path.join(d, '%s.%s' % (tag, c)) for c in ('cxx', 'in', 'txt', 'mod')}
-        p = subprocess.run(pre + [b['interrogate'], '-DCPPPARSER', '-oc', 'o.cxx', '-od', 'o.in', '-oh', 'o.txt', '-module', 'm', '-library', 'l'] + opts + ['h.h'],
+        p = subprocess.run(pre + [b['interrogate'], '-DCPPPARSER', '-S' + os.path.join(b['src'], 'parser-inc'), '-oc', 'o.cxx', '-od', 'o.in', '-oh', 'o.txt', '-module', 'm', '-library', 'l'] + opts + ['h.h'],
                            cwd=d + '/' + tag, env=env, stdout=subprocess.PIPE, stderr=subprocess.STDOUT)
         res = {'rc': p.returncode}
         for c, f in (('cxx', 'o.cxx'), ('in', 'o.in'), ('txt', 'o.txt')):
@@ -136,7 +139,7 @@ def main():
         if e is not None:
             env['SOURCE_DATE_EPOCH'] = e
         t0 = int(time.time())
-        p = subprocess.run([b['interrogate'], '-DCPPPARSER', '-oc', 'o.cxx', '-od', 'o.in', '-module', 'm', '-library', 'l', '-python-native', 'h.h'], cwd=os.path.join(d, 'id'), env=env,
+        p = subprocess.run([b['interrogate'], '-DCPPPARSER', '-S' + os.path.join(b['src'], 'parser-inc'), '-oc', 'o.cxx', '-od', 'o.in', '-module', 'm', '-library', 'l', '-python-native', 'h.h'], cwd=os.path.join(d, 'id'), env=env,
                            stdout=subprocess.PIPE, stderr=subprocess.STDOUT)
         t1 = int(time.time())
         ck.count()
@@ -152,7 +155,7 @@ def main():
             if e == '1700000000':
                 first = open(os.path.join(d, 'id', 'o.in'), 'rb').read()
                 time.sleep(1.2)
-                subprocess.run([b['interrogate'], '-DCPPPARSER', '-oc', 'o.cxx', '-od', 'o.in', '-module', 'm', '-library', 'l', '-python-native', 'h.h'], cwd=os.path.join(d, 'id'), env=env,
+                subprocess.run([b['interrogate'], '-DCPPPARSER', '-S' + os.path.join(b['src'], 'parser-inc'), '-oc', 'o.cxx', '-od', 'o.in', '-module', 'm', '-library', 'l', '-python-native', 'h.h'], cwd=os.path.join(d, 'id'), env=env,
                                stdout=subprocess.PIPE, stderr=subprocess.STDOUT)
                 if open(os.path.join(d, 'id', 'o.in'), 'rb').read() != first:
                     ck.spec_failure('identifier:clock-dependent', 'two runs 1.2 s apart with the same SOURCE_DATE_EPOCH produce different databases', rp)
